@@ -49,8 +49,10 @@ CLAIMED = {
             "len(deltas), r_values / deltas / value as defined, N == sum of the chain lengths.",
             "DESIGN.md section 6 C04",
             "Also proved: the result assembly of derived_observable (scalar mode) and import_jackknife construct through Obs.__init__(means=...) "
-            "and return a well-formed object (names, idl kinds, lengths, N, flag). NOT decided by this check: fits / roots / importers / readers, closure of "
-            "arithmetic over the operand-type matrix (complex partners), Covobs / cov_Obs validation, ranges with non-positive step as idl."),
+            "and return a well-formed object (names, idl kinds, lengths, N, flag); closure of arithmetic: every operator method of Obs "
+            "(+ - * / ** neg and reflected) and of CObs (+ - * / and reflected) executed for partner kinds Obs / CObs / int / float / complex "
+            "returns a real observable or a complex observable with real parts (defect for complex partners found and fixed). NOT decided by this "
+            "check: fits / roots / importers / readers, ndarray partners, complex powers, Covobs / cov_Obs validation, ranges with non-positive step as idl."),
     "C05": ("symbolic execution of reweight / correlate / merge_obs / _reduce_deltas over enumerated chain layouts with symbolic data; counting argument by ghost induction",
             "Proof: _reduce_deltas gathers by configuration number (never by position) and raises ValueError iff a requested configuration is "
             "missing (pigeonhole argument supplied as three ghost inductions); reweight builds numerator and denominator from the weight's "
